@@ -498,7 +498,7 @@ def sample_repr(sc):
     }
 
 
-BUDGET = {"quick": 400, "thorough": 6000}
+BUDGET = {"quick": 700, "thorough": 6000}
 WALL_CAP = {"quick": 240, "thorough": 3000}
 RULE = (
     "run i derives a base scenario (controller parameters, file-name formats, directory layout, metric history on the k/8 grid, "
